@@ -49,11 +49,16 @@ def eff_scale(H, W, mh, mw):
 
 
 def gen_plan(rng, index, tier):
-    for _attempt in range(200):
+    for _attempt in range(300):
         kind = "single" if index % 2 == 0 else "topdown"
         H, W = rng.randint(48, 160), rng.randint(48, 160)
+        mixed = rng.random() < 0.3  # a labels file whose two videos have different frame sizes
+        sizes = [[H, W], [rng.randint(48, 160), rng.randint(48, 160)] if mixed else [H, W]]
         r = rng.random()
-        if r < 0.35:
+        if mixed:
+            # size matching is what makes mixed sizes batchable: a user-set max size (larger, smaller or in between)
+            mh, mw = rng.choice([max(sizes[0][0], sizes[1][0]), rng.randint(40, 200)]), rng.choice([max(sizes[0][1], sizes[1][1]), rng.randint(40, 200)])
+        elif r < 0.35:
             mh = mw = None
         elif r < 0.55:
             mh, mw = H + rng.randint(0, 40), W + rng.randint(0, 40)
@@ -61,63 +66,77 @@ def gen_plan(rng, index, tier):
             mh, mw = max(40, H - rng.randint(0, 40)), max(40, W - rng.randint(0, 40))
         else:
             mh, mw = rng.randint(40, 200), rng.randint(40, 200)
-        e, IH, IW, r1 = eff_scale(H, W, mh, mw)
         n_nodes = rng.choice([1, 2, 3, 4])
         refinement = rng.choice([None, "integral"])
         plan = {"kind": kind, "H": H, "W": W, "max_hw": [mh, mw], "n_nodes": n_nodes, "refinement": refinement,
                 "batch": rng.choice([1, 2, 3, 4]), "dtype": rng.choice(["uint8", "uint8", "float32"]), "sigma": rng.choice([1.5, 2.0]),
                 "cap": rng.choice([1, 2, 4]), "anchor": None, "edges": [[i, i + 1] for i in range(n_nodes - 1)]}
+        if mixed:
+            plan["sizes"] = sizes
+            plan["batch"] = rng.choice([2, 3, 4])
 
         def stage():
             ms = rng.choice([1, 2, 4, 8, 16, 32])
             st = rng.choice([s for s in (1, 2, 4, 8) if s <= ms] or [1])
             return {"scale": rng.choice([0.5, 0.75, 1.0, 1.0, 1.25, 2.0]), "max_stride": ms, "stride": st}
 
-        n_frames = rng.randint(1, 4)
+        n_frames = rng.randint(2, 5) if mixed else rng.randint(1, 4)
         frames = []
         ok = True
         if kind == "single":
             plan["single"] = stage()
-            s, S = plan["single"]["scale"], plan["single"]["stride"]
-            sig = s * e
-            margin = 4.0 * S / sig + 3.0
-            if 2 * margin + 4 > min(H, W):
-                continue
-            for k in range(n_frames):
-                pts = []
-                for j in range(n_nodes):
-                    pts.append([rng.uniform(margin, W - 1 - margin), rng.uniform(margin, H - 1 - margin)])  # full precision: no exact half-cell ties
-                if n_nodes > 1 and rng.random() < 0.3:
-                    for j in rng.sample(range(n_nodes), rng.randint(1, n_nodes - 1)):
-                        pts[j] = [float("nan"), float("nan")]
-                frames.append({"k": k, "animals": [pts]})
         else:
             plan["centroid"] = stage()
             plan["centered"] = stage()
             plan["anchor"] = rng.choice([None] + list(range(n_nodes)))
-            ci = plan["centered"]
-            cms = ci["max_stride"]
-            crop = rng.choice([32, 48, 64])
-            crop = int(math.ceil(crop / cms) * cms)
+            cms = plan["centered"]["max_stride"]
+            crop = int(math.ceil(rng.choice([32, 48, 64]) / cms) * cms)
             plan["crop_hw"] = [crop, crop]
-            sig_ci = ci["scale"] * e
-            sig_c = plan["centroid"]["scale"] * e
-            S_ci, S_c = ci["stride"], plan["centroid"]["stride"]
-            # body half-extent (original px) so that the body sits >= 4 cells + 2 px inside the crop
-            ext = (crop / 2.0 - 4.0 * S_ci - 3.0) / sig_ci
-            if ext < 2.0:
-                continue
-            ext = min(ext, 12.0)
-            margin = max(4.0 * S_c / sig_c + 3.0, ext + 2.0)
-            sep = 1.6 * crop / sig_ci + 2 * ext + 8.0 * S_c / sig_c
-            if 2 * margin + 4 > min(H, W):
-                continue
-            for k in range(n_frames):
-                animals = []
-                cents = []
-                for a in range(rng.randint(1, 3)):
+            plan["max_instances"] = None
+        fidxs = list(range(8))
+        rng.shuffle(fidxs)  # unique frame indices across both videos: (vid, fidx) identifies a frame
+        for k in range(n_frames):
+            fr = {"k": k}
+            if mixed:
+                fr["vid"], fr["fidx"] = (k if k < 2 else rng.randrange(2)), fidxs[k]  # both sizes occur, early enough to share a batch
+            fH, fW = sizes[fr["vid"]] if mixed else (H, W)
+            e, IH, IW, r1 = eff_scale(fH, fW, mh, mw)
+            if kind == "single":
+                s_, S = plan["single"]["scale"], plan["single"]["stride"]
+                sig = s_ * e
+                margin = 4.0 * S / sig + 3.0
+                if 2 * margin + 4 > min(fH, fW):
+                    ok = False
+                    break
+                pts = [[rng.uniform(margin, fW - 1 - margin), rng.uniform(margin, fH - 1 - margin)] for _ in range(n_nodes)]  # full precision: no exact half-cell ties
+                if n_nodes > 1 and rng.random() < 0.3:
+                    for j in rng.sample(range(n_nodes), rng.randint(1, n_nodes - 1)):
+                        pts[j] = [float("nan"), float("nan")]
+                if rng.random() < 0.12:
+                    pts = [[float("nan"), float("nan")] for _ in range(n_nodes)]  # nothing visible in this frame
+                fr["animals"] = [pts]
+            else:
+                ci = plan["centered"]
+                crop = plan["crop_hw"][0]
+                sig_ci = ci["scale"] * e
+                sig_c = plan["centroid"]["scale"] * e
+                S_ci, S_c = ci["stride"], plan["centroid"]["stride"]
+                # body half-extent (original px) so that the body sits >= 4 cells + 2 px inside the crop
+                ext = (crop / 2.0 - 4.0 * S_ci - 3.0) / sig_ci
+                if ext < 2.0:
+                    ok = False
+                    break
+                ext = min(ext, 12.0)
+                margin = max(4.0 * S_c / sig_c + 3.0, ext + 2.0)
+                sep = 1.6 * crop / sig_ci + 2 * ext + 8.0 * S_c / sig_c
+                if 2 * margin + 4 > min(fH, fW):
+                    ok = False
+                    break
+                animals, cents = [], []
+                n_an = 0 if (n_frames > 1 and rng.random() < 0.25) else rng.randint(1, 3)  # empty frames next to populated ones
+                for a in range(n_an):
                     for _t in range(30):
-                        cx, cy = rng.uniform(margin, W - 1 - margin), rng.uniform(margin, H - 1 - margin)
+                        cx, cy = rng.uniform(margin, fW - 1 - margin), rng.uniform(margin, fH - 1 - margin)
                         if all(max(abs(cx - c[0]), abs(cy - c[1])) > sep for c in cents):
                             break
                     else:
@@ -125,17 +144,14 @@ def gen_plan(rng, index, tier):
                     cents.append((cx, cy))
                     # every node within ext/2 of the body centre => within ext of whichever node/midpoint the crop is centred on
                     pts = [[cx + rng.uniform(-ext / 2, ext / 2), cy + rng.uniform(-ext / 2, ext / 2)] for _ in range(n_nodes)]
-                    pts = [[min(max(p[0], 1.0), W - 2.0), min(max(p[1], 1.0), H - 2.0)] for p in pts]
+                    pts = [[min(max(p[0], 1.0), fW - 2.0), min(max(p[1], 1.0), fH - 2.0)] for p in pts]
                     if n_nodes > 1 and rng.random() < 0.3:
                         for j in rng.sample(range(n_nodes), rng.randint(1, n_nodes - 1)):
                             pts[j] = [float("nan"), float("nan")]
                     animals.append(pts)
-                if not animals:
-                    ok = False
-                    break
-                frames.append({"k": k, "animals": animals})
-            plan["max_instances"] = None
-        if not ok or not frames:
+                fr["animals"] = animals
+            frames.append(fr)
+        if not ok or not frames or all(len(f["animals"]) == 0 for f in frames):
             continue
         plan["frames"] = frames
         return plan
@@ -148,6 +164,9 @@ def describe(plan):
         if k in plan:
             d[k] = plan[k]
     d["animals_per_frame"] = [len(f["animals"]) for f in plan["frames"]]
+    if "sizes" in plan:
+        d["sizes"] = plan["sizes"]
+        d["frame_vid"] = [f.get("vid") for f in plan["frames"]]
     return d
 
 
@@ -175,8 +194,19 @@ def shrink(plan):
         yield mod(refinement=None)
     if plan["dtype"] != "uint8":
         yield mod(dtype="uint8")
-    if plan["max_hw"] != [None, None]:
+    mixed = "sizes" in plan and len({tuple(x) for x in plan["sizes"]}) > 1
+    if plan["max_hw"] != [None, None] and not mixed:
         yield mod(max_hw=[None, None])
+    if mixed and len({f.get("vid") for f in plan["frames"]}) == 1:
+        # all remaining frames come from one video: the plan is no longer mixed
+        v = plan["frames"][0]["vid"]
+        p = copy.deepcopy(plan)
+        p["H"], p["W"] = plan["sizes"][v]
+        p.pop("sizes")
+        for f in p["frames"]:
+            f.pop("vid", None)
+            f.pop("fidx", None)
+        yield p
     for st in ("single", "centroid", "centered"):
         if st in plan:
             for k, v in (("scale", 1.0), ("max_stride", 1), ("stride", 1)):
@@ -192,8 +222,8 @@ def shrink(plan):
                 yield plan
 
 
-def _rho(plan, st):
-    H, W = plan["H"], plan["W"]
+def _rho(plan, st, f=None):
+    H, W = pw.frame_hw(plan, f) if f is not None else (plan["H"], plan["W"])
     e, IH, IW, r1 = eff_scale(H, W, plan["max_hw"][0], plan["max_hw"][1])
     s = plan[st]["scale"]
     r2 = max(IH * s - int(IH * s), IW * s - int(IW * s)) if s != 1.0 else 0.0
@@ -205,42 +235,49 @@ def _tol(S, sig, rho):
 
 
 def _collect(plan, records):
-    """-> {frame_idx: list of (pts (nodes,2), vals (nodes,))} in original coordinates."""
+    """-> {(video_idx, frame_idx): list of (pts (nodes,2), vals (nodes,))} in original coordinates."""
     out = {}
     for r in records:
         fidx = np.asarray(r["frame_idx"]).reshape(-1)
-        if plan["kind"] == "single":
-            for b in range(len(fidx)):
-                out.setdefault(int(fidx[b]), []).append((np.asarray(r["pred_instance_peaks"][b], dtype=np.float64),
-                                                         np.asarray(r["pred_peak_values"][b], dtype=np.float64)))
-        else:
-            for b in range(len(fidx)):
+        vidx = np.asarray(r["video_idx"]).reshape(-1)
+        for b in range(len(fidx)):
+            key = (int(vidx[b]), int(fidx[b]))
+            if plan["kind"] == "single":
+                out.setdefault(key, []).append((np.asarray(r["pred_instance_peaks"][b], dtype=np.float64),
+                                                np.asarray(r["pred_peak_values"][b], dtype=np.float64)))
+            else:
                 bbox = np.asarray(r["instance_bbox"][b]).reshape(4, 2)
                 pts = np.asarray(r["pred_instance_peaks"][b], dtype=np.float64) + bbox[0]
-                out.setdefault(int(fidx[b]), []).append((pts, np.asarray(r["pred_peak_values"][b], dtype=np.float64)))
+                out.setdefault(key, []).append((pts, np.asarray(r["pred_peak_values"][b], dtype=np.float64)))
     return out
+
+
+def _fkey(plan, f, i, provider):
+    if provider == "labels" and "vid" in f:
+        return (f["vid"], f["fidx"])
+    return (0, i)
 
 
 def execute(plan, choices=None):
     violations = []
     probes = {"keypoints_compared": 0, "invisible_checked": 0, "scaled_runs": 0, "size_matched_runs": 0, "padded_runs": 0,
-              "worst_err_over_tol_x1000_max": 0, "provider_pairs_compared": 0, "integral_refinement": 0, "instances_compared": 0, "degenerate_tie_scene_skipped": 0}
+              "worst_err_over_tol_x1000_max": 0, "provider_pairs_compared": 0, "integral_refinement": 0, "instances_compared": 0, "degenerate_tie_scene_skipped": 0, "mixed_frame_sizes": 0, "frame_without_visible_animal": 0}
 
     def V(kind, where, detail):
         violations.append({"kind": kind, "sig": f"{kind}:{where}", "detail": detail})
 
     kind = plan["kind"]
     st = "single" if kind == "single" else "centered"
-    e, s, rho = _rho(plan, st)
-    sig = e * s
     S = plan[st]["stride"]
-    tol = _tol(S, sig, rho)
+    s = plan[st]["scale"]
+    mixed = "sizes" in plan and len({tuple(x) for x in plan["sizes"]}) > 1
+    any_sig_not_one = False
     results = {}
     digests = []
     last_nets = {}
-    for provider in ("video", "labels"):
+    for provider in (("labels",) if mixed else ("video", "labels")):
         try:
-            records, end, err, sim, nets = pw.run_predictor(plan, provider, choices if provider == "video" else None)
+            records, end, err, sim, nets = pw.run_predictor(plan, provider, choices if provider == ("labels" if mixed else "video") else None)
             last_nets = nets
         except Exception as ex:
             import traceback
@@ -258,8 +295,15 @@ def execute(plan, choices=None):
         results[provider] = got
         # ---- accuracy against the scene
         for fi, f in enumerate(plan["frames"]):
-            preds = got.get(fi, [])
+            preds = got.get(_fkey(plan, f, fi, provider), [])
             animals = [np.array(a, dtype=np.float64) for a in f["animals"]]
+            e, _s, rho = _rho(plan, st, f)
+            sig = e * s
+            tol = _tol(S, sig, rho)
+            if sig != 1.0:
+                any_sig_not_one = True
+            if kind == "topdown":
+                preds = [p_ for p_ in preds if not np.isnan(p_[0]).all()]
             if kind == "single":
                 if len(preds) != 1:
                     V("wrong_count", f"single:{provider}", f"frame {fi}: {len(preds)} predictions for a single-instance frame")
@@ -318,7 +362,9 @@ def execute(plan, choices=None):
         violations = []  # centroid exactly half-way between two cells: two equal maxima, not general position
         probes["degenerate_tie_scene_skipped"] = 1
     if not violations and len(results) == 2:
-        a, b = results["video"], results["labels"]
+        a = results["video"]
+        b = {(0, i): results["labels"].get(_fkey(plan, f, i, "labels"), []) for i, f in enumerate(plan["frames"])}
+        b = {k: v for k, v in b.items() if v}
         probes["provider_pairs_compared"] += 1
         for fi in sorted(set(a) | set(b)):
             pa, pb = a.get(fi, []), b.get(fi, [])
@@ -331,10 +377,14 @@ def execute(plan, choices=None):
                     break
             if violations:
                 break
-    if sig != 1.0:
+    if any_sig_not_one:
         probes["scaled_runs"] = 1
-    if e != 1.0 or (plan["max_hw"][0] not in (None, plan["H"])) or (plan["max_hw"][1] not in (None, plan["W"])):
+    if mixed or (plan["max_hw"][0] not in (None, plan["H"])) or (plan["max_hw"][1] not in (None, plan["W"])):
         probes["size_matched_runs"] = 1
+    if mixed:
+        probes["mixed_frame_sizes"] = 1
+    if any(len(f["animals"]) == 0 or all(all(q[0] != q[0] for q in a) for a in f["animals"]) for f in plan["frames"]):
+        probes["frame_without_visible_animal"] = 1
     ms = plan[st]["max_stride"]
     if ms > 1:
         probes["padded_runs"] = 1
@@ -346,7 +396,7 @@ def execute(plan, choices=None):
         "digest": hashlib.blake2b(repr((digests, [v["sig"] for v in violations], probes["keypoints_compared"])).encode(), digest_size=16).hexdigest(),
         "choices": [],
         "shape": hashlib.blake2b(repr(cls).encode(), digest_size=8).hexdigest(),
-        "nontrivial": probes["keypoints_compared"] > 0 and (sig != 1.0 or ms > 1 or S > 1),
+        "nontrivial": probes["keypoints_compared"] > 0 and (any_sig_not_one or ms > 1 or S > 1),
         "probes": probes,
         "faults": {},
         "sim_us": 0,
